@@ -22,6 +22,12 @@ RULE = (
     "NotImplementedError is a rejection); extra read-only inputs, second outputs, a second op per stage; rarely: accumulating "
     "outs, an index scalar operand, a copy after the loop that reads an L1 buffer. Bounds are constants (ub sometimes a run-time "
     "argument) with lb in {0,1,2,3}, step in {1,2,3}, trip counts 0..6 (0..8 thorough), about three quarters >= stages-1. "
+    "In about 60% of the cases the SSA values used as lb / ub / step have other users, as CSE'd MLIR has them: the bound is the "
+    "shared pool constant %c<value> ('cse'), and/or the value is an operand of index arithmetic, a tile row or a scalar stage "
+    "operand in the body, the row of a tile copied before the loop (then a barrier) or copied / computed on after the loop, the "
+    "lb / ub / step or an offset of a second, plain (barrier-free, hence unpipelined) loop after the first one; classes "
+    "'<bound> value shared: <place>' are counted on the IR construct-pipeline receives. The whole function is executed, so "
+    "these ops are part of every comparison. "
     "pipeline-canonicalize-for runs first as in snaxc_main; the loop it leaves is the sequential reference. construct-pipeline, "
     "pipeline-duplicate-buffers, unroll-pipeline are applied and both programs are executed on a two-core epoch machine with "
     "symbolic buffer contents (vlib/machine_c15.py). Oracles: (1) the multiset of (stage op, evaluated operand tiles) is equal, "
@@ -89,7 +95,8 @@ class LoopInterp(Interp):
             lb, ub, step = (self.get(env, v) for v in (op.lb, op.ub, op.step))
             if step <= 0:
                 raise InterpError("non-positive step")
-            its = list(self.forced) if self.forced is not None else list(range(lb, ub, step))
+            # `forced` is the iteration space of the first loop (the one under test); a second loop runs as written
+            its = list(self.forced) if self.forced is not None and not self.loops else list(range(lb, ub, step))
             self.loops.append((lb, ub, step, its))
             carried = [self.get(env, a) for a in op.iter_args]
             for i in its:
@@ -155,6 +162,40 @@ def carried_through_views(m0, built, its):
     return False
 
 
+def bound_sharing(mod):
+    """Other users of the SSA values the first scf.for uses as lb / ub / step, by place (classes only)."""
+    loop = next((o for o in mod.walk() if o.name == "scf.for"), None)
+    if loop is None or loop.parent is None:
+        return []
+    pos = {o: k for k, o in enumerate(loop.parent.ops)}
+    out = set()
+    for nm, v in (("lb", loop.lb), ("ub", loop.ub), ("step", loop.step)):
+        for u in v.uses:
+            o = u.operation
+            if o is loop:
+                if u.index >= 3:
+                    out.add(f"{nm} value shared: iter_args init of the loop")
+                elif sum(1 for x in (loop.lb, loop.ub, loop.step) if x is v) > 1:
+                    out.add(f"{nm} value shared: two bounds of the loop are one value")
+                continue
+            top = o
+            while top is not None and top not in pos:
+                top = top.parent_op()
+            if top is None:
+                continue
+            if top is loop:
+                what = {"memref.subview": "tile offset", "linalg.generic": "scalar stage operand"}.get(o.name, "index arithmetic")
+                out.add(f"{nm} value shared: {what} in the loop body")
+            elif o.name == "scf.for":
+                out.add(f"{nm} value shared: bound of a second loop")
+            elif top.name == "scf.for":
+                out.add(f"{nm} value shared: op in a second loop")
+            else:
+                out.add(f"{nm} value shared: op {'before' if pos[top] < pos[loop] else 'after'} the loop")
+    out |= {c.split(":")[0] + ": any other user" for c in out}
+    return sorted(out)
+
+
 def apply_passes(mod):
     """returns True iff construct-pipeline built a pipeline op"""
     constructed = False
@@ -212,6 +253,7 @@ def check_case(rc, want_text=False):
     if canon:
         run_pass(ref, "pipeline-canonicalize-for")
         ref.verify()
+    sharing = bound_sharing(ref)
     opt = ref.clone()
     constructed = apply_passes(opt)
     try:
@@ -235,7 +277,7 @@ def check_case(rc, want_text=False):
         raise Outside("sequential loop leaves its buffers")
     if m0.conflicts() or m0.ww:
         raise Outside("sequential loop has a cross-core conflict inside a stage")
-    if len(it0.loops) != 1:
+    if len(it0.loops) < 1:
         raise Outside("no loop")
     lb, ub, step, its = it0.loops[0]
     trip = len(its)
@@ -264,6 +306,9 @@ def check_case(rc, want_text=False):
         classes.append("loop-carried dependence through distinct subviews")
     classes.append(f"duplicated:{min(len(dup), 3)}")
     classes += sorted(built.features)
+    classes += sharing
+    if constructed:
+        classes += ["pipelined, " + c for c in sharing if c.endswith("any other user")]
     detail_base = dict(stages=S, lb=lb, ub=ub, step=step, trip=trip, duplicated=dup)
 
     # whole buffers that some op reads and writes through one linalg `outs` operand and that are duplicated or used by another stage
@@ -298,7 +343,8 @@ def check_case(rc, want_text=False):
             pred = Counter()
             for sv in sched:
                 pred.update(per.get(sv, []))
-            pred.update(e.cov_key() for e, v in zip(mm.events, mm.iter_of_event) if v is None)
+            # everything outside the loop under test (before / after it, a second loop) as executed
+            pred.update(e.cov_key() for e, v in zip(mm.events, mm.iter_of_event) if v is None or built.stage_tags.get(e.tag) is None)
             memo["p"] = pred
         return memo["p"]
 
